@@ -23,8 +23,10 @@ package main
 
 import (
 	"fmt"
+	"strings"
 
 	"github.com/piotrnar/gocoin/lib/btc"
+	"verif/vlib"
 )
 
 // fullOf finds the complete valid block for a header built by the environment (nil: not one of ours).
@@ -200,9 +202,103 @@ func (x *Gen) TrustedBlock() Case {
 	return c
 }
 
+// headTie compares the model of btc.Block.BuildTxListExt (Model/NetParseState.lean buildTxList: decoding of
+// txn_count with its refusal of a zero count, then the transaction loop) with the real function on the bytes
+// of a `block` message, the way netBlockReceived reaches it: a Block object made from the 80-byte header,
+// Raw assigned afterwards. (dohash = false: the sequential variant - same head, no worker goroutines.)
+func (h *Harness) headTie(pl []byte) {
+	if len(pl) < 81 || len(pl) > 20000 {
+		return
+	}
+	m := h.o.MustAsk("b 1 " + vlib.Hex(pl))
+	real := ""
+	h.e.quiet() // (the library prints its complaints)
+	defer h.e.loud()
+	func() {
+		defer func() {
+			if x := recover(); x != nil {
+				real = "panic " + fmt.Sprint(x)
+			}
+		}()
+		bl, er := btc.NewBlock(pl[:80])
+		if er != nil {
+			real = "nohdr"
+			return
+		}
+		bl.Raw = pl
+		if e := bl.BuildTxListExt(false); e != nil {
+			switch {
+			case strings.Contains(e.Error(), "bad-blk-length"):
+				real = "reject bad-blk-length"
+			default:
+				real = "reject NewTx-failed"
+			}
+			return
+		}
+		real = fmt.Sprintf("ok %d", len(bl.Txs))
+	}()
+	h.r.Hit("blockhead:" + strings.SplitN(m, " ", 3)[0] + ":" + lastField(m))
+	if real == "nohdr" {
+		return
+	}
+	if real != m {
+		rep := map[string]interface{}{"lib": LibCase{Fn: "blockhead", In: H(pl)}, "model": m, "real": real}
+		what := fmt.Sprintf("btc.Block.BuildTxListExt on a block object made from the header with %d bytes assigned to Raw: real %q, model %q", len(pl), real, m)
+		if strings.HasPrefix(m, "reject bad-blk-length") && strings.HasPrefix(real, "ok 0") {
+			// the property's own consequence, shown on the real code: an empty transaction list handed to the merkle computation
+			pan := ""
+			func() {
+				defer func() {
+					if x := recover(); x != nil {
+						pan = fmt.Sprint(x)
+					}
+				}()
+				bl, _ := btc.NewBlock(pl[:80])
+				bl.Raw = pl
+				bl.BuildTxListExt(false)
+				bl.Trusted.Set()
+				bl.GetMerkle() // what chain.PostCheckBlock does next for a trusted block
+			}()
+			if pan != "" {
+				h.r.PropFail("lib:blockhead:empty-txlist", what+" - a transaction count of zero is accepted with an EMPTY list, and the merkle computation PostCheckBlock runs next on a trusted block panics: "+pan, rep)
+				return
+			}
+		}
+		h.r.TieFail("tie:blockhead", what, rep)
+		return
+	}
+	h.r.TieOK()
+}
+
+// merkleTie: CalcMerkle's last index, model against the real function, for 0..4 hashes.
+func (h *Harness) merkleTie() {
+	for n := 0; n <= 4; n++ {
+		m := h.o.MustAsk(fmt.Sprint("m ", n))
+		real := "ok"
+		func() {
+			defer func() {
+				if recover() != nil {
+					real = "panic"
+				}
+			}()
+			btc.CalcMerkle(make([][32]byte, n, 3*n+1))
+		}()
+		if m != real {
+			h.r.TieFail("tie:calcmerkle", fmt.Sprintf("btc.CalcMerkle on %d hashes: real %s, model %s", n, real, m), map[string]interface{}{"n": n})
+		} else {
+			h.r.TieOK()
+		}
+	}
+}
+
 // trustedBlocks runs n cases of the family.
 func (h *Harness) trustedBlocks(gen *Gen, n int) {
+	h.merkleTie()
 	for i := 0; i < n; i++ {
-		h.One(gen.TrustedBlock())
+		cs := gen.TrustedBlock()
+		if cs.Cmd == "block" {
+			h.headTie(cs.payload())
+		}
+		h.One(cs)
 	}
 }
